@@ -2,6 +2,7 @@ package lssim
 
 import (
 	"bufio"
+	"crypto/sha256"
 	"encoding/json"
 	"fmt"
 	"os"
@@ -254,6 +255,16 @@ func WorkerBatch(t *testing.T) {
 				continue
 			}
 			seenClass[class] = true
+			if dir := os.Getenv("LSSIM_SCRATCH"); dir != "" && os.Getenv("LSSIM_OUT") != "" {
+				// one worker of a check minimises a class; the others only
+				// count further occurrences
+				lock := fmt.Sprintf("%s/class-%x.lock", dir, sha256.Sum256([]byte(prof.Name+"/"+class)))
+				lf, err := os.OpenFile(lock, os.O_CREATE|os.O_EXCL|os.O_WRONLY, 0o644)
+				if err != nil {
+					continue
+				}
+				lf.Close()
+			}
 			path := fmt.Sprintf("%s/%s-%s-%d-%d.json", replayDir, v.Property, prof.Name, seed, index)
 			if replayDir != "" {
 				_ = WriteReplay(path+".orig", replayFileFor(r, *v, seed, false, len(r.tape)))
